@@ -84,6 +84,9 @@ def run_case(col, case):
                         f"{size}")
             run.case = dict(case, srcsize=case["size"], size=tuple(run.subject.rendered_size), dyn=False)
             exp = cc.expected(dict(run.case, dyn=True))     # a dynamic size is never rejected
+            if not exp.fits_width or exp.h > max(case["term"][1] - 2, 1):
+                bad("dynamic-size-overflows", f"the automatic (FIT) size {exp.w}x{exp.h} does not fit the terminal "
+                    f"{case['term']} (available {case['term'][0]}x{max(case['term'][1] - 2, 1)})")
     else:
         prepare = None
 
@@ -401,6 +404,15 @@ def build_cases(tier):
                                       repeat=1, cached=False, size=(3, 3), dyn=True, fmt=(None, 0, None, -2),
                                       term0=term0, term=term, pre=pre, row0=row0, isatty=True, check_size=check,
                                       animate=animate))
+    # ---- part R: non-default cell ratios x automatically sized images of various aspect ratios (sources wider
+    # than, as wide as and narrower than the available area): the automatic size always fits, draw() places it
+    for style, ident, method in OLD_COMBOS[:2] + [("block", "kitty", None)]:
+        for ratio, term in itertools.product((0.4, 0.5, 1.0), [(6, 5), (8, 7), (12, 8)]):
+            for srcpx in ((9, 10), (7, 10), (8, 10), (10, 10), (17, 10), (10, 17), (13, 10)):
+                for frames, row0 in itertools.product((1, 2), (0, term[1] - 1)):
+                    cases.append(dict(part="R", api="old", style=style, ident=ident, method=method, frames=frames,
+                                      repeat=2, cached=False, size=(3, 3), srcpx=srcpx, dyn=True, cell_ratio=ratio,
+                                      fmt=(None, 0, None, -2), term=term, row0=row0, isatty=True))
     return cases
 
 
@@ -450,7 +462,8 @@ def run(ctx):
                                                      W="old API validation table",
                                                      H="old API histories: draw, resize, draw (dynamic size)",
                                                      K="old API style-specific draw() parameters",
-                                                     S="stdout is not the active terminal (both APIs)"),
+                                                     S="stdout is not the active terminal (both APIs)",
+                                                     R="cell ratios x automatic size x source aspect ratios"),
                         terminals=sorted({tuple(c["term"]) for c in cases}),
                         old_api_combos=len(OLD_COMBOS) + len(KITTY_GATE))
     ctx.assumptions += ["vterm (vlib/vterm.py, DESIGN appendix A) is the terminal, the tty applies ONLCR",
